@@ -10,7 +10,7 @@ PROPERTY = "C09"
 RULE = ("Arbitrary well-formed coding graphs (as C01) and arbitrary arc subsets of order 1..3 (4 thorough), start "
         "vertex, string of length >= k (walk, walk with 1..4 edits incl. well-separated ones, random ACGT), check "
         "absent / right for the string / right for the original walk / wrong, indel handling on/off, heap limit in "
-        "{1, 10, 1e3, 1e9}. Oracle: independent walk predicate and VT formula: a walk comes back as exactly [s] (or [] "
+        "{1, 10, 1e3, 1e5, 1e9 (1e9 only for inputs with well-separated errors, so the product stays small)}. Oracle: independent walk predicate and VT formula: a walk comes back as exactly [s] (or [] "
         "when the check disagrees) with zero detected errors; every returned list is sorted and duplicate-free and, "
         "with a check, every candidate reproduces it. Calls that hit the look-up budget are left to C10. "
         "Non-trivial: clean walk with a wrong check, or a non-walk with a check, or >= 2 candidates returned.")
@@ -49,7 +49,8 @@ def cases(draw, tier):
     return {"graph": graph, "walk": walk, "text": text,
             "check_kind": draw(st.sampled_from(["none", "none", "of_text", "of_walk", "wrong"])),
             "check_len": draw(st.integers(1, 6)), "indel": draw(st.booleans()),
-            "heap": draw(st.sampled_from([1, 10, 1000, 1000, 10 ** 9])), "salt": draw(st.integers(0, 2 ** 16))}
+            "heap": draw(st.sampled_from([1, 10, 1000, 1000, 10 ** 9 if kind in ("walk", "edit1", "spaced")
+                                          else 10 ** 5])), "salt": draw(st.integers(0, 2 ** 16))}
 
 
 def evaluate(case):
@@ -120,9 +121,14 @@ SUBCHECKS = [
     SubCheck("repair_contract", evaluate, strategy=cases, examples=(6000, 60000), shards=(16, 16),
              floors={"clean_wrong_check": 100, "fallback_with_check": 100, "multi_candidates": 200,
                      "candidates_of_different_length": 60, "multi_site_product": 60, "walk": 800}, rule=RULE),
+    SubCheck("fuzz_repair_contract", evaluate, fuzz=("C09", (4000, 250000)), shards=(2, 8),
+             rule="atheris/libFuzzer campaign: bytes are decoded into (graph from a pool of 64 arc subsets, start "
+                  "vertex, string, options) and judged by the same oracle as the Hypothesis sub-check; coverage "
+                  "feedback from dsw only; even shards start from an empty corpus, odd shards from 48 random inputs",
+             timeout=3600.0),
 ]
 
-TECHNIQUE = ("property-based testing (Hypothesis): validity predicate over repair_dna's output against an independent "
+TECHNIQUE = ("property-based testing (Hypothesis) and coverage-guided fuzzing (atheris): validity predicate over repair_dna's output against an independent "
              "walk predicate and VT formula")
 LEVEL_TEXT = ("Generated search, 6,000 / 60,000 cases on well-formed and arbitrary arc-subset graphs: clean walks "
               "must come back untouched (or as the empty list under a disagreeing check) with zero detected errors; "
